@@ -32,7 +32,109 @@ type c16File struct {
 
 var hex64 = regexp.MustCompile(`[0-9a-f]{64}`)
 
+// runC16S3 prunes an S3 store (in-harness endpoint) holding objects of both formats, junk keys and objects outside the prefix.
+func runC16S3(c *fw.Case) {
+	unc := c.Bool("c16.uncompressed")
+	s3, err := newS3Sim()
+	if err != nil {
+		c.HarnessError("%v", err)
+		return
+	}
+	defer s3.close()
+	prefix := []string{"", "pfx", "a/b"}[c.Draw(3, "s3.prefix")]
+	st, err := s3.store(prefix, unc)
+	if err != nil {
+		c.HarnessError("%v", err)
+		return
+	}
+	pfx := prefix
+	if pfx != "" {
+		pfx += "/"
+	}
+	r := c.Rand("c16.seed")
+	type obj struct {
+		key        string
+		kind       string
+		id         desync.ChunkID
+		ownFmt     bool
+		referenced bool
+	}
+	var objs []*obj
+	keep := map[desync.ChunkID]struct{}{}
+	refMode := c.Draw(4, "ref.mode")
+	n := c.Range(0, 30, "c16.objects")
+	for i := 0; i < n; i++ {
+		var id desync.ChunkID
+		for j := range id {
+			id[j] = byte(r.IntN(256))
+		}
+		sid := id.String()
+		name := func(uncompressed bool) string {
+			k := pfx + sid[:4] + "/" + sid
+			if !uncompressed {
+				k += ".cacnk"
+			}
+			return k
+		}
+		o := &obj{id: id}
+		switch c.Draw(8, "s3obj.kind") {
+		case 0, 1, 2, 3:
+			o.key, o.kind, o.ownFmt = name(unc), "chunk", true
+		case 4:
+			o.key, o.kind = name(!unc), "chunk-other-format"
+		case 5:
+			o.key, o.kind = pfx+"notes/"+sid[:8]+".txt", "junk"
+		case 6:
+			o.key, o.kind = "elsewhere/"+sid[:4]+"/"+sid+".cacnk", "outside-prefix"
+			if prefix == "" {
+				o.key, o.kind = pfx+sid[:4]+"/README", "junk"
+			}
+		case 7:
+			o.key, o.kind = pfx+"zzzz/"+sid+map[bool]string{true: "", false: ".cacnk"}[unc], "misplaced"
+		}
+		if o.ownFmt && (refMode == 1 || (refMode >= 2 && r.IntN(2) == 0)) {
+			o.referenced = true
+			keep[id] = struct{}{}
+		}
+		s3.objects[o.key] = []byte("object " + o.kind)
+		objs = append(objs, o)
+	}
+	if refMode == 3 {
+		keep[desync.ChunkID{9, 9, 9}] = struct{}{}
+	}
+	c.Class(fmt.Sprintf("s3-prune unc=%v prefix=%q objects<=%d", unc, prefix, (n+7)/8*8))
+	c.Note("S3 prune uncompressed=%v prefix=%q objects=%d refMode=%d", unc, prefix, n, refMode)
+	c.NonTrivial()
+	var perr error
+	if catch(c, "S3Store.Prune", func() { perr = st.Prune(context.Background(), keep) }) {
+		return
+	}
+	for _, o := range objs {
+		s3.mu.Lock()
+		_, there := s3.objects[o.key]
+		s3.mu.Unlock()
+		mustKeep := !o.ownFmt || o.referenced
+		if mustKeep && !there {
+			c.Violate("prune-deleted-too-much", "S3Store.Prune/"+o.kind, "prune removed %s (%s, referenced=%v)", o.key, o.kind, o.referenced)
+			return
+		}
+		if perr == nil && !mustKeep && there {
+			c.Violate("prune-left-garbage", "S3Store.Prune/"+o.kind, "prune reported success but unreferenced %s is still there", o.key)
+			return
+		}
+	}
+	if perr != nil {
+		c.Violate("prune-failed", "S3Store.Prune", "%v", perr)
+		return
+	}
+	c.Outcome("ok")
+}
+
 func runC16(c *fw.Case) {
+	if c.Chance(1, 12, "c16.s3") {
+		runC16S3(c)
+		return
+	}
 	unc := c.Bool("c16.uncompressed") // store mode under test
 	dir := filepath.Join(c.Dir(), "store")
 	os.MkdirAll(dir, 0755)
